@@ -3,6 +3,7 @@ package main
 import (
 	"context"
 	"fmt"
+	"io"
 	"math/rand"
 	"sort"
 	"strings"
@@ -13,6 +14,7 @@ import (
 	"github.com/prometheus/prometheus/config"
 	"github.com/prometheus/prometheus/discovery/targetgroup"
 	"github.com/prometheus/prometheus/model/relabel"
+	"github.com/sirupsen/logrus"
 	"tkestack.io/kvass/pkg/discovery"
 	"tkestack.io/kvass/pkg/explore"
 	"tkestack.io/kvass/pkg/prom"
@@ -61,9 +63,32 @@ func addrOf(s string) int {
 	return k
 }
 
+// pauseHook stops the discovery goroutine inside translateTargets - after it read the job's configuration, before
+// it stores its result - at the log line about a target that cannot be built (the only seam there is: no hook in the
+// code is needed). That is where a reload can slip in between.
+type pauseHook struct {
+	armed   bool
+	reached chan struct{}
+	release chan struct{}
+}
+
+func (h *pauseHook) Levels() []logrus.Level { return logrus.AllLevels }
+func (h *pauseHook) Fire(e *logrus.Entry) error {
+	if h.armed && strings.Contains(e.Message, "create target for job") {
+		h.armed = false
+		h.reached <- struct{}{}
+		<-h.release
+	}
+	return nil
+}
+
 func discoveryRun(in interface{}) (string, interface{}, map[string]int) {
 	c := in.(*dCase)
-	td := discovery.New(quietLog)
+	plog := logrus.New()
+	plog.SetOutput(io.Discard)
+	ph := &pauseHook{reached: make(chan struct{}), release: make(chan struct{})}
+	plog.AddHook(ph)
+	td := discovery.New(plog)
 	sm := scrape.New(true, quietLog)
 	ex := explore.New(sm, prometheus.NewRegistry(), quietLog)
 	sdChan := make(chan map[string][]*targetgroup.Group)
@@ -98,6 +123,73 @@ func discoveryRun(in interface{}) (string, interface{}, map[string]int) {
 	st := map[string]int{"ops": len(c.Ops)}
 	for opi, op := range c.Ops {
 		var term string
+		emit := func(term string, last bool) {
+			act := td.ActiveTargets()
+			drp := td.DropTargets()
+			ob := dObs{Active: flat(act, false), Dropped: flat(drp, true)}
+			snapshots = append(snapshots, held{act, ob.Active})
+			seenAddr := map[int]bool{}
+			for _, t := range td.ActiveTargetsByHash() {
+				seenAddr[addrOf(t.ShardTarget.Labels.Get("__address__"))] = true
+			}
+			for a := range seenAddr {
+				ob.ByHash = append(ob.ByHash, a)
+			}
+			sort.Ints(ob.ByHash)
+			if last { // WaitInit polls once per second: only measured at the end of a history
+				// WaitInit looks once per second; "done" = it returned before the context expired (not a duration
+				// measured here: under load the tick can be late)
+				wctx, wcancel := context.WithTimeout(context.Background(), 2600*time.Millisecond)
+				_ = td.WaitInit(wctx)
+				done := wctx.Err() == nil
+				ob.InitDone = &done
+				wcancel()
+			}
+			exSeen := map[int]bool{}
+			for h, a := range hashAddr {
+				if ex.Get(h) != nil {
+					exSeen[a] = true
+				}
+			}
+			for a := range exSeen {
+				ob.Explorer = append(ob.Explorer, a)
+			}
+			sort.Ints(ob.Explorer)
+			seen = append(seen, ob)
+			opsT = append(opsT, term)
+			jl := func(m map[string][]int) string {
+				names := make([]string, 0, len(m))
+				for j := range m {
+					names = append(names, j)
+				}
+				sort.Strings(names)
+				var items []string
+				for _, j := range names {
+					var id int
+					fmt.Sscanf(j, "job%d", &id)
+					var as []string
+					for _, a := range m[j] {
+						as = append(as, cN(uint64(a)))
+					}
+					items = append(items, fmt.Sprintf("(%s, %s)", cN(uint64(id)), cList(as)))
+				}
+				return cList(items)
+			}
+			nl := func(l []int) string {
+				var as []string
+				for _, a := range l {
+					as = append(as, cN(uint64(a)))
+				}
+				return cList(as)
+			}
+			obsT = append(obsT, fmt.Sprintf("{| do_active := %s; do_dropped := %s; do_by_hash := %s; do_init_done := %s; do_explorer := %s |}",
+				jl(ob.Active), jl(ob.Dropped), nl(ob.ByHash), func() string {
+					if ob.InitDone == nil {
+						return "None"
+					}
+					return "(Some " + cBool(*ob.InitDone) + ")"
+				}(), nl(ob.Explorer)))
+		}
 		switch op.Kind {
 		case "update":
 			msg := map[string][]*targetgroup.Group{}
@@ -134,6 +226,70 @@ func discoveryRun(in interface{}) (string, interface{}, map[string]int) {
 			out := <-td.ActiveTargetsChan()
 			ex.UpdateTargets(out)
 			term = "DUpdate " + cList(jobsT)
+		case "race":
+			// an update of ONE job is being translated (its configuration already read) when a reload arrives; the reload
+			// either removes that job or keeps it unchanged. Expected: the same as the reload followed by the update.
+			var job string
+			for j := range op.Groups {
+				job = j
+			}
+			var id int
+			fmt.Sscanf(job, "job%d", &id)
+			msg := map[string][]*targetgroup.Group{}
+			// a first group with one target that cannot be built (no address): logged, contributes nothing
+			msg[job] = append(msg[job], &targetgroup.Group{Source: job + "/pause", Targets: []model.LabelSet{{"noaddr": "1"}}})
+			var gsT []string
+			for gi, g := range op.Groups[job] {
+				tg := &targetgroup.Group{Source: fmt.Sprintf("%s/%d", job, gi), Labels: model.LabelSet{"grp": model.LabelValue(fmt.Sprint(gi))}}
+				var tsT []string
+				for _, t := range g {
+					ls := model.LabelSet{"__address__": model.LabelValue(fmt.Sprintf("10.0.0.%d:80", t.Addr))}
+					if t.Drop {
+						ls["drop"] = "1"
+					}
+					tg.Targets = append(tg.Targets, ls)
+					tsT = append(tsT, fmt.Sprintf("(%s, %s)", cN(uint64(t.Addr)), cBool(t.Drop)))
+				}
+				msg[job] = append(msg[job], tg)
+				gsT = append(gsT, cList(tsT))
+			}
+			ph.armed = true
+			sdChan <- msg
+			paused := false
+			select {
+			case <-ph.reached:
+				paused = true
+			case out := <-td.ActiveTargetsChan(): // the job was not configured: nothing to pause at
+				ex.UpdateTargets(out)
+				ph.armed = false
+			}
+			cfg := dCfg(op.Jobs)
+			if paused {
+				_ = sm.ApplyConfig(cfg)
+				_ = ex.ApplyConfig(cfg)
+				_ = td.ApplyConfig(cfg)
+				var js []string
+				for _, jv := range op.Jobs {
+					js = append(js, fmt.Sprintf("(%s, %s)", cN(uint64(jv[0])), cN(uint64(jv[1]))))
+				}
+				emit("DReload "+cList(js), false)
+				ph.release <- struct{}{}
+				out := <-td.ActiveTargetsChan()
+				ex.UpdateTargets(out)
+				emit("DUpdate "+cList([]string{fmt.Sprintf("(%s, %s)", cN(uint64(id)), cList(gsT))}), opi == len(c.Ops)-1)
+				st["races"]++
+			} else {
+				// not reached (unknown job): plain update, then the reload
+				emit("DUpdate "+cList([]string{fmt.Sprintf("(%s, %s)", cN(uint64(id)), cList(gsT))}), false)
+				_ = sm.ApplyConfig(cfg)
+				_ = ex.ApplyConfig(cfg)
+				_ = td.ApplyConfig(cfg)
+				var js []string
+				for _, jv := range op.Jobs {
+					js = append(js, fmt.Sprintf("(%s, %s)", cN(uint64(jv[0])), cN(uint64(jv[1]))))
+				}
+				emit("DReload "+cList(js), opi == len(c.Ops)-1)
+			}
 		case "reload":
 			cfg := dCfg(op.Jobs)
 			_ = sm.ApplyConfig(cfg)
@@ -145,71 +301,9 @@ func discoveryRun(in interface{}) (string, interface{}, map[string]int) {
 			}
 			term = "DReload " + cList(js)
 		}
-		act := td.ActiveTargets()
-		drp := td.DropTargets()
-		ob := dObs{Active: flat(act, false), Dropped: flat(drp, true)}
-		snapshots = append(snapshots, held{act, ob.Active})
-		seenAddr := map[int]bool{}
-		for _, t := range td.ActiveTargetsByHash() {
-			seenAddr[addrOf(t.ShardTarget.Labels.Get("__address__"))] = true
+		if op.Kind != "race" {
+			emit(term, opi == len(c.Ops)-1)
 		}
-		for a := range seenAddr {
-			ob.ByHash = append(ob.ByHash, a)
-		}
-		sort.Ints(ob.ByHash)
-		if opi == len(c.Ops)-1 { // WaitInit polls once per second: only measured at the end of a history
-			// WaitInit looks once per second; "done" = it returned before the context expired (not a duration
-			// measured here: under load the tick can be late)
-			wctx, wcancel := context.WithTimeout(context.Background(), 2600*time.Millisecond)
-			_ = td.WaitInit(wctx)
-			done := wctx.Err() == nil
-			ob.InitDone = &done
-			wcancel()
-		}
-		exSeen := map[int]bool{}
-		for h, a := range hashAddr {
-			if ex.Get(h) != nil {
-				exSeen[a] = true
-			}
-		}
-		for a := range exSeen {
-			ob.Explorer = append(ob.Explorer, a)
-		}
-		sort.Ints(ob.Explorer)
-		seen = append(seen, ob)
-		opsT = append(opsT, term)
-		jl := func(m map[string][]int) string {
-			names := make([]string, 0, len(m))
-			for j := range m {
-				names = append(names, j)
-			}
-			sort.Strings(names)
-			var items []string
-			for _, j := range names {
-				var id int
-				fmt.Sscanf(j, "job%d", &id)
-				var as []string
-				for _, a := range m[j] {
-					as = append(as, cN(uint64(a)))
-				}
-				items = append(items, fmt.Sprintf("(%s, %s)", cN(uint64(id)), cList(as)))
-			}
-			return cList(items)
-		}
-		nl := func(l []int) string {
-			var as []string
-			for _, a := range l {
-				as = append(as, cN(uint64(a)))
-			}
-			return cList(as)
-		}
-		obsT = append(obsT, fmt.Sprintf("{| do_active := %s; do_dropped := %s; do_by_hash := %s; do_init_done := %s; do_explorer := %s |}",
-			jl(ob.Active), jl(ob.Dropped), nl(ob.ByHash), func() string {
-				if ob.InitDone == nil {
-					return "None"
-				}
-				return "(Some " + cBool(*ob.InitDone) + ")"
-			}(), nl(ob.Explorer)))
 		st["op_"+op.Kind]++
 	}
 	// held snapshots must not have been affected by later steps
@@ -250,6 +344,28 @@ func discoveryGen(r *rand.Rand, idx int, thorough bool) interface{} {
 	for i := 0; i < n; i++ {
 		if r.Intn(4) == 0 {
 			reload()
+			continue
+		}
+		if len(cfg) > 0 && r.Intn(7) == 0 {
+			// an update of one configured job overtaken by a reload that removes this job or changes nothing about it
+			jv := cfg[r.Intn(len(cfg))]
+			gs := [][]dTarget{}
+			for g := 0; g < 1+r.Intn(2); g++ {
+				var ts []dTarget
+				for k := 0; k < 1+r.Intn(3); k++ {
+					ts = append(ts, dTarget{Addr: jv[0]*10 + 1 + r.Intn(6), Drop: r.Intn(4) == 0})
+				}
+				gs = append(gs, ts)
+			}
+			ncfg := [][2]int{}
+			remove := r.Intn(3) != 0
+			for _, x := range cfg {
+				if !(remove && x[0] == jv[0]) {
+					ncfg = append(ncfg, x)
+				}
+			}
+			cfg = ncfg
+			c.Ops = append(c.Ops, dOp{Kind: "race", Groups: map[string][][]dTarget{fmt.Sprintf("job%d", jv[0]): gs}, Jobs: append([][2]int{}, cfg...)})
 			continue
 		}
 		op := dOp{Kind: "update", Groups: map[string][][]dTarget{}}
